@@ -6322,9 +6322,8 @@ void
 ControlT<TArgs>::pinLastTransition(const StateID stateId_,
 								   const Short index) noexcept
 {
-	if (index != INVALID_SHORT) {
-		HFSM2_ASSERT(index < TransitionSets::CAPACITY);
-
+	// (transitions beyond the capacity of the history are applied but not recorded, so there is nothing to point at)
+	if (index != INVALID_SHORT && index < TransitionSets::CAPACITY) {
 		if (!_core.registry.isActive(stateId_))
 			_core.transitionTargets[stateId_] = index;
 	}
